@@ -552,6 +552,17 @@ func runC07(p *core.Program, r *core.Report) {
 				tb := capIf.Block().Succs[0]
 				evicted := false
 				for _, call := range callsTo(fn, m["RemoveOldest"]) {
+					extra := unaccountedGuard(fn, call.Block(), func(v ssa.Value) bool {
+						if v == capIf.Cond {
+							return true
+						}
+						if u, ok := capIf.Cond.(*ssa.UnOp); ok && u.X == v {
+							return true
+						}
+						_, isOk := v.(*ssa.Extract) // the miss edge of the lookup
+						return isOk
+					})
+					c.ob("PT3", fname, "eviction hangs on the capacity test alone", p.InstrPos(call), extra == nil, "the eviction is guarded by a further branch besides count > size: for some capacities or states the cache grows past its capacity")
 					if tb.Dominates(call.Block()) && x.path(call.Common().Args[0]) == "c" {
 						// all returns dominated by tb return the call's results
 						good := true
